@@ -26,6 +26,10 @@ def run(rep):
     calls = dwtmodel.run_calls(rep, rep.tier, ["FwdShapesOK", "FwdRaiseOK", "FwdChain"], {"fwd"})
     dwtchecks.analysis_one_level(rep, fnd, table, "C01")
     dwtchecks.analysis_multi_level(rep, fnd, table, calls.records, "C01")
+    calls2 = dwtmodel.run_calls2(rep, rep.tier, ["FwdShapesOK", "FwdRaiseOK", "BandsOK", "FunctionalSlotsOK"], {"fwd"})
+    dwtchecks.analysis_2d(rep, fnd, table, calls2.records, "C01")
+    dwtchecks.trace_validate_analysis(rep, "C01", rep.tier)
+    dwtchecks.numeric_vs_pywt(rep, "C01", rep.tier)
     rep.assumptions += [
         "TLC bounds: see coverage.tlc_runs; beyond them only the recorded executions are checked",
         "PyWavelets (pywt.dwt with indicator taps) pins the Ref layer; disagreement = machinery failure",
